@@ -4,7 +4,7 @@
    answer), every rule database, ban list, solver fuel and input list.  The default threshold is
    0, whose key is 0, and every confidence key is >= 0 (A5) -- hence the first hypothesis. *)
 From Coq Require Import String ZArith List Bool.
-From SynRBL Require Import Base.Dict Model.Comp Model.Matcher Model.Pipeline Proofs.PipelineProofs Proofs.RowLocal Proofs.Balanced Proofs.RunLevel Proofs.Declined.
+From SynRBL Require Import Base.Dict Model.Comp Model.Matcher Model.Pipeline Proofs.PipelineProofs Proofs.RowLocal Proofs.Balanced Proofs.RunLevel Proofs.Declined Model.Impute Proofs.ImputeProofs.
 Import ListNotations.
 Open Scope string_scope.
 
@@ -45,6 +45,28 @@ Theorem C03_carbon_deficit_declined : forall O db ban fuel,
           (admitted O ins) rows.
 Proof. intros O db ban fuel H2. exact (run_carbon_deficit_declined O db ban fuel H2). Qed.
 
+(* H1 and H3 discharged: impute_reaction's control flow is modelled (Model/Impute.v; the answers of build_compounds + merge, of
+   the SMILES standardizers and of is_carbon_balanced stay oracles I), and for every oracle record whose impute field is that
+   function -- refine O I -- the two facts hold by construction (Proofs/ImputeProofs.v).  The check compares the modelled
+   control flow with every recorded impute_reaction call.  Only H2 remains a hypothesis. *)
+Theorem C03_solved_rows_have_empty_or_absent_issue_refined : forall O I db ban fuel,
+  (forall r, bal (refine O I) (rxn (rb_water (refine O I) r)) = true -> rxn (rb_water (refine O I) r) = rxn r) ->
+  forall t tmsg ins rows st, run (refine O I) db ban fuel t tmsg ins = Done (rows, st) ->
+  forall r, In r rows -> solved r = true -> issue r = None \/ issue r = Some "".
+Proof.
+  intros O I db ban fuel H2. exact (run_solved_issue_empty (refine O I) db ban fuel (refined_impute_needs_empty_issue O I) H2).
+Qed.
+
+Theorem C03_carbon_deficit_declined_refined : forall O I db ban fuel,
+  (forall r, bal (refine O I) (rxn (rb_water (refine O I) r)) = true -> rxn (rb_water (refine O I) r) = rxn r) ->
+  forall t tmsg ins rows st, run (refine O I) db ban fuel t tmsg ins = Done (rows, st) ->
+  Forall2 (fun s r => carbon_of O s = CReactants -> solved r = false) (admitted (refine O I) ins) rows.
+Proof.
+  intros O I db ban fuel H2 t tmsg ins rows st H.
+  eapply Forall2_impl; [|exact (run_carbon_deficit_declined (refine O I) db ban fuel H2 t tmsg ins rows st H)].
+  intros s r X CD. apply X; [exact CD|]. intros m ru. apply refined_impute_refuses_deficit.
+Qed.
+
 (* non-vacuity: a run with a declined row and a solved row (tiny oracle tables) *)
 Definition O0 : oracles :=
   {| strip := fun s => s; parse_ok := fun _ => true;
@@ -58,7 +80,25 @@ Example run_has_both :
   Some [("C>>C", true, Some M_INPUT, None); ("C>>CC", false, None, Some "No MCS identified.")].
 Proof. vm_compute. reflexivity. Qed.
 
+(* non-vacuity of the refined theorems: a refined oracle record whose run has an MCS-solved row (empty issue) and a declined
+   carbon-deficit row *)
+Definition O1 : oracles :=
+  {| strip := fun s => s; parse_ok := fun _ => true;
+     decomp := fun s => if String.eqb s "A" then [("C",2);("H",6)]%Z else if String.eqb s "B" then [("C",1);("H",4)]%Z
+                        else if String.eqb s "B.M" then [("C",2);("H",6)]%Z else [];
+     ccount := fun s => if String.eqb s "A" then 2%Z else 1%Z;
+     mcs_state := fun _ => (false, ""); impute := fun _ => ImpFail "unused"; pp := fun _ => None; confidence := fun _ _ => 1%Z |}.
+Definition I1 : impute_oracles :=
+  {| merged_raw := fun _ => Ok2 ("m", ["r"]); standardized := fun _ => Ok2 "M"; carbon_balanced_after := fun _ => true |}.
+Example refined_run_has_both :
+  option_map (map (fun r => (rxn r, solved r, sby r, issue r)))
+    (match run (refine O1 I1) [] [] 10 0%Z "m" ["A>>B"; "B>>A"] with Done (rows, _) => Some rows | Raised _ => None end) =
+  Some [("A>>B.M", true, Some M_MCS, Some ""); ("B>>A", false, None, Some MSG_DEFICIT)].
+Proof. vm_compute. reflexivity. Qed.
+
 Print Assumptions C03_declined_untouched.
 Print Assumptions C03_solved_named.
 Print Assumptions C03_solved_rows_have_empty_or_absent_issue.
 Print Assumptions C03_carbon_deficit_declined.
+Print Assumptions C03_solved_rows_have_empty_or_absent_issue_refined.
+Print Assumptions C03_carbon_deficit_declined_refined.
